@@ -83,6 +83,10 @@ pub fn run(fams: &[&str], seed: u64, n: usize) {
             "fbiquad" => fam_fbiquad(&mut rng, n, &mut out),
             "coeff" => fam_coeff(&mut rng, n, &mut out),
             "pid" => fam_pid(&mut rng, n, &mut out),
+            "cossin_all" => fam_cossin_all(&mut out),
+            "osub_all" => fam_osub_all(&mut out),
+            "num8_all" => fam_num8_all(&mut out),
+            "atani_all" => fam_atani_all(&mut out),
             _ => panic!("unknown family {}", f),
         }
     }
@@ -1378,5 +1382,53 @@ fn fam_pid(rng: &mut Rng, n: usize, out: &mut Out) {
             2 => { if let Some(c) = guard(|| b.build::<i64>()) { out.emit(&lhs(64, 62), Some(list(&c))); } }
             _ => { if let Some(c) = guard(|| b.build::<i16>()) { out.emit(&lhs(16, 14), Some(list(&c))); } }
         }
+    }
+}
+
+// ------------------------------------------------------------------ exhaustive streams (thorough tier)
+/// every value of `phase >> 7` (the implementation ignores the low 7 bits: proved for the model, checked natively
+/// for all 2^32 phases by the C01 oracle)
+fn fam_cossin_all(out: &mut Out) {
+    for i in 0..(1u32 << 25) {
+        let p = (i << 7) as i32;
+        let (c, s) = cossin(p);
+        out.emit(&format!("cossin {}", p), Some(format!("{} {}", c, s)));
+    }
+}
+
+fn fam_osub_all(out: &mut Out) {
+    for y in i8::MIN..=i8::MAX {
+        for x in i8::MIN..=i8::MAX {
+            let (d, w) = overflowing_sub(y, x);
+            out.emit(&format!("osub 8 {} {}", y, x), Some(format!("{} {}", d, w)));
+        }
+    }
+}
+
+fn fam_num8_all(out: &mut Out) {
+    for a in i8::MIN..=i8::MAX {
+        for b in i8::MIN..=i8::MAX {
+            let r = guard(|| a.mul_scaled(b));
+            out.emit(&format!("mul_scaled 8 6 {} {}", a, b), r.map(|v| v.to_string()));
+            let r = guard(|| a.div_scaled(b));
+            out.emit(&format!("div_scaled 8 6 {} {}", a, b), r.map(|v| v.to_string()));
+        }
+    }
+    // macc: the complete (u, s) plane for two limit pairs and three remainders
+    for u in i8::MIN..=i8::MAX {
+        for s in i16::MIN..=i16::MAX {
+            for (mn, mx, e1) in [(i8::MIN, i8::MAX, 0i8), (-64i8, 63i8, 37i8)] {
+                let r = guard(|| u.macc(s, mn, mx, e1));
+                out.emit(&format!("macc 8 6 {} {} {} {} {}", u, s, mn, mx, e1), r.map(|(y, e)| format!("{} {}", y, e)));
+            }
+        }
+    }
+}
+
+fn fam_atani_all(out: &mut Out) {
+    for q in 0..=(1u32 << 16) {
+        let x = (q << 15).wrapping_add(1 << 14);
+        let r = guard(|| verif_atani(x));
+        out.emit(&format!("atani {}", x), r.map(|v| v.to_string()));
     }
 }
